@@ -532,7 +532,8 @@ func main() {
 	if err != nil {
 		die("%v", err)
 	}
-	m := regexp.MustCompile(`(?m)^module\s+(\S+)`).FindSubmatch(gm)
+	// module path: `module p`, `module "p"`, or the block form `module (\n p \n)`
+	m := regexp.MustCompile(`(?m)^module\s*\(?\s*"?([^\s"()]+)"?`).FindSubmatch(gm)
 	if m == nil {
 		die("no module line in go.mod")
 	}
@@ -675,6 +676,11 @@ func findPackages() []*pkgInfo {
 		base := d.Name()
 		if path != *repo && (strings.HasPrefix(base, ".") || strings.HasPrefix(base, "_") || base == "testdata" || base == "vendor") {
 			return filepath.SkipDir
+		}
+		if path != *repo {
+			if _, err := os.Stat(filepath.Join(path, "go.mod")); err == nil {
+				return filepath.SkipDir // a nested module is not part of this one
+			}
 		}
 		bp, err := ctx.ImportDir(path, 0)
 		if err != nil || len(bp.GoFiles) == 0 {
@@ -1109,6 +1115,49 @@ func (in *instr) goEager(g *ast.GoStmt) bool {
 	if !ok {
 		return false
 	}
+	if !sig.Variadic() && len(g.Call.Args) != sig.Params().Len() {
+		return false // f(g()) with a multi-value g
+	}
+	// First choice: { fn__, p0__, … := FUN, ARGS; simrt__.Go(func() { fn__(p0__, …) }) }
+	// No type has to be written down, so nothing can be shadowed, unexported or
+	// not imported. It does not fit an untyped constant or nil among the
+	// arguments (a variable would take the default type); those take the typed
+	// wrapper below.
+	plain := true
+	for _, a := range g.Call.Args {
+		at, ok := info.Types[a]
+		if !ok || at.Type == nil || at.IsNil() {
+			plain = false
+			break
+		}
+		if b, isBasic := at.Type.(*types.Basic); isBasic && b.Info()&types.IsUntyped != 0 {
+			plain = false
+			break
+		}
+	}
+	if plain {
+		lhs := []string{"fn__"}
+		var use []string
+		for i := range g.Call.Args {
+			n := fmt.Sprintf("p%d__", i)
+			lhs = append(lhs, n)
+			if g.Call.Ellipsis.IsValid() && i == len(g.Call.Args)-1 {
+				n += "..."
+			}
+			use = append(use, n)
+		}
+		in.replace(g.Go, 2, "{ "+strings.Join(lhs, ", ")+" := ")
+		sep := ", "
+		if len(g.Call.Args) == 0 {
+			sep = ""
+		}
+		in.replace(g.Call.Lparen, 1, sep)
+		if g.Call.Ellipsis.IsValid() {
+			in.replace(g.Call.Ellipsis, 3, "")
+		}
+		in.replace(g.Call.Rparen, 1, "; simrt__.Go(func() { fn__("+strings.Join(use, ", ")+") }) }")
+		return true
+	}
 	names := map[string]string{}
 	for _, im := range in.astFile.Imports {
 		path, _ := strconv.Unquote(im.Path.Value)
@@ -1159,11 +1208,67 @@ func (in *instr) goEager(g *ast.GoStmt) bool {
 			use = append(use, name)
 		}
 	}
-	if bad {
-		return false
+	// every named type in the signature must be nameable where the statement
+	// stands: exported if it comes from another package, not shadowed by a local
+	// if it is the module's own
+	var nameable func(t types.Type, depth int) bool
+	nameable = func(t types.Type, depth int) bool {
+		if depth > 8 {
+			return true
+		}
+		switch u := t.(type) {
+		case *types.Named:
+			o := u.Obj()
+			if o.Pkg() != nil && o.Pkg() != pkg && !o.Exported() {
+				return false
+			}
+			if o.Pkg() == pkg && scope != nil {
+				if _, found := scope.LookupParent(o.Name(), g.Pos()); found != o {
+					return false
+				}
+			}
+			if ta := u.TypeArgs(); ta != nil {
+				for i := 0; i < ta.Len(); i++ {
+					if !nameable(ta.At(i), depth+1) {
+						return false
+					}
+				}
+			}
+			return true
+		case *types.Pointer:
+			return nameable(u.Elem(), depth+1)
+		case *types.Slice:
+			return nameable(u.Elem(), depth+1)
+		case *types.Array:
+			return nameable(u.Elem(), depth+1)
+		case *types.Chan:
+			return nameable(u.Elem(), depth+1)
+		case *types.Map:
+			return nameable(u.Key(), depth+1) && nameable(u.Elem(), depth+1)
+		case *types.Signature:
+			for i := 0; i < u.Params().Len(); i++ {
+				if !nameable(u.Params().At(i).Type(), depth+1) {
+					return false
+				}
+			}
+			for i := 0; i < u.Results().Len(); i++ {
+				if !nameable(u.Results().At(i).Type(), depth+1) {
+					return false
+				}
+			}
+			return true
+		case *types.Struct:
+			for i := 0; i < u.NumFields(); i++ {
+				if !nameable(u.Field(i).Type(), depth+1) {
+					return false
+				}
+			}
+			return true
+		}
+		return true
 	}
-	if !sig.Variadic() && len(g.Call.Args) != np {
-		return false // f(g()) with a multi-value g
+	if bad || !nameable(sig, 0) {
+		return false
 	}
 	wrapper := "func(" + strings.Join(decl, ", ") + ") { simrt__.Go(func() { fn__(" + strings.Join(use, ", ") + ") }) }("
 	in.replace(g.Go, 2, wrapper)
@@ -1210,6 +1315,11 @@ func instrumentFile(p *pkgInfo, name string, f *ast.File, full bool) string {
 			// package initialisation runs before any hook can be installed
 			continue
 		}
+		if fd.Doc != nil && strings.Contains(fd.Doc.Text()+commentLines(fd.Doc), "go:nosplit") {
+			// inserted calls enlarge the frame of a function that must not grow
+			// its stack; the linker may then refuse it
+			continue
+		}
 		in.yieldAt(fd.Body.Lbrace+1, "entry", fn)
 		in.stmts(fd.Body.List, fn)
 	}
@@ -1235,6 +1345,17 @@ func instrumentFile(p *pkgInfo, name string, f *ast.File, full bool) string {
 		die("instrumented %s does not parse: %v", name, err)
 	}
 	return string(out)
+}
+
+// commentLines returns the raw text of a comment group (directives such as
+// //go:nosplit are not part of CommentGroup.Text()).
+func commentLines(g *ast.CommentGroup) string {
+	var b strings.Builder
+	for _, c := range g.List {
+		b.WriteString(c.Text)
+		b.WriteString("\n")
+	}
+	return b.String()
 }
 
 func recvName(e ast.Expr) string {
